@@ -595,9 +595,10 @@ def report(prop, tier, seed, results, meta, wall, scens):
             'z3 5.1 (cross-checked on sampled queries with cvc5 1.4) is sound',
             'NumPy index/stride/reshape mechanics are trusted'],
     }
-    os.makedirs(os.path.join(VERIF, 'evidence'), exist_ok=True)
-    with open(os.path.join(VERIF, 'evidence', prop + '.json'), 'w') as f:
-        json.dump(ev, f, indent=1, default=_jsonable)
+    if not os.environ.get('VERIF_NOEVIDENCE'):       # development aid: runs against a seeded worktree must not leave an evidence file behind
+        os.makedirs(os.path.join(VERIF, 'evidence'), exist_ok=True)
+        with open(os.path.join(VERIF, 'evidence', prop + '.json'), 'w') as f:
+            json.dump(ev, f, indent=1, default=_jsonable)
     print('%s %s: %d grid points, %d/%d obligations discharged, %d violation(s), %d known finding(s), %d inconclusive, %d harness error(s), %.1fs' % (
         prop, tier, len(results), n_dis, n_ob, len(violations), len(known_hits), len(inconclusive), len(harness_errors), wall))
     if violations:
